@@ -230,7 +230,7 @@ def install_vec(I: Interp):
 
     def vec_of(v):
         return v if isinstance(v, Vec) else None
-    E["numpy.asarray"] = (lambda old: lambda I, a, k, n: a[0] if isinstance(a[0], Vec) else Vec(a[0]) if isinstance(a[0], list) and all(isinstance(x, Num) for x in a[0]) else old(I, a, k, n))(E["numpy.asarray"])
+    E["numpy.asarray"] = (lambda old: lambda I, a, k, n: a[0] if isinstance(a[0], Vec) else Vec(a[0]) if isinstance(a[0], (list, tuple)) and a[0] and all(isinstance(x, Num) or type(x).__module__.startswith("sympy") for x in a[0]) else old(I, a, k, n))(E["numpy.asarray"])
     E["numpy.array"] = E["numpy.asarray"]
     A[("Vec", "size")] = lambda I, v, n: Num.const(len(v.items))
     A[("Vec", "shape")] = lambda I, v, n: (Num.const(len(v.items)),)
@@ -317,6 +317,10 @@ def install_vec(I: Interp):
         v = a[0]
         return Vec([I.binop(_ast.Sub(), v.items[i + 1], v.items[i], n) for i in range(len(v.items) - 1)])
     E["numpy.diff"] = npdiff
+    E["numpy.add"] = lambda I, a, k, n: I.binop(_ast.Add(), a[0], a[1], n)
+    E["numpy.subtract"] = lambda I, a, k, n: I.binop(_ast.Sub(), a[0], a[1], n)
+    E["numpy.multiply"] = lambda I, a, k, n: I.binop(_ast.Mult(), a[0], a[1], n)
+    E["numpy.divide"] = lambda I, a, k, n: I.binop(_ast.Div(), a[0], a[1], n)
 
     def flatnonzero(I, a, k, n):
         v = a[0]
